@@ -94,7 +94,7 @@ func VerifC19Bad() {
 	goodLine := c19line(23, good)
 	var bad []byte
 	hasNewline := true
-	switch zz.Choice("mutation", 7) {
+	switch zz.Choice("mutation", 8) {
 	case 0: // odd number of hex characters
 		bad = append([]byte("5 "), c19hex(zz.U8("a")&0x0F), c19hex(zz.U8("b")&0x0F), c19hex(zz.U8("c")&0x0F), '\n')
 	case 1: // a non-hex character at a symbolic position of the payload
@@ -117,6 +117,11 @@ func VerifC19Bad() {
 		bad = append(append(ts, ' '), c19hex(zz.U8("a")&0x0F), c19hex(zz.U8("b")&0x0F), '\n')
 	case 6: // a second separator inside the payload
 		bad = append([]byte("5 "), c19hex(zz.U8("a")&0x0F), c19hex(zz.U8("b")&0x0F), ' ', c19hex(zz.U8("c")&0x0F), c19hex(zz.U8("d")&0x0F), '\n')
+	case 7: // complete hex pairs followed by exactly one other character
+		x := zz.U8("trailing")
+		zz.Assume(!((x >= '0' && x <= '9') || (x >= 'a' && x <= 'f') || (x >= 'A' && x <= 'F')))
+		zz.Assume(x != ' ' && x != '\n')
+		bad = append([]byte("5 "), c19hex(zz.U8("a")&0x0F), c19hex(zz.U8("b")&0x0F), c19hex(zz.U8("c")&0x0F), c19hex(zz.U8("d")&0x0F), x, '\n')
 	case 4: // missing terminator before the end of the stream
 		bad = append([]byte("5 "), c19hex(zz.U8("a")&0x0F), c19hex(zz.U8("b")&0x0F))
 		hasNewline = false
